@@ -4,7 +4,7 @@
    This file holds statements only; every proof is `exact <lemma>` or a few lines over lemmas proved elsewhere. *)
 From Coq Require Import List Arith NArith Bool Lia Permutation.
 Import ListNotations.
-Require Import S1 VParse Py VMeaning VCmp SpecModel SpecOps Order Canon SpecEq VWf VKeyEq SortUnique CanonLaws VObsModel VSortLaws VClauses VNumeric VKeyEqb VDec.
+Require Import S1 VParse Py VMeaning VCmp SpecModel SpecOps Order Canon SpecEq VWf VKeyEq SortUnique CanonLaws VObsModel VSortLaws VClauses VClauses2 VNumeric VKeyEqb VDec.
 Open Scope N_scope.
 
 (* the six Python operators on two parsed strings *)
@@ -92,8 +92,14 @@ Print Assumptions C01_sorting_gives_one_answer.
 
 
 (* ---------------------------------------------------------------------------------------------------------------------------------
-   9-14. "The order is PEP 440's", clause by clause.  Each clause is stated twice: about pep440_cmp (proved in Ver/VClauses.v without
-   appealing to the reader's trust in the definition of pep440_cmp) and about the six Python operators on parsed strings. *)
+   9-14. "The order is PEP 440's", clause by clause: consequences of the definition of pep440_cmp stated one rule at a time (proofs in
+   Ver/VClauses.v, VClauses2.v), so that a reader checks the rules and not the nested definition.  Most need a proof (induction, case analysis, the
+   sandwich argument); a few conjuncts are DEFINITIONAL (hold by `reflexivity`) and are marked so where they occur.  The clauses about whole
+   versions (epoch, release, ladder, .dev/.post, local label last) are also stated on the six Python operators on parsed strings (`_ops`);
+   the rules about `padcmp`, `seg_lex`, `seg_cmp` alone (10b, 14 conjuncts 2-8) have no operator form of their own - they enter the operators only
+   through C01_release_second_ops and C01_local_decides_ops.
+   The model has no digit limit (finding D10): beyond int()'s 4300-digit limit the real Version() raises InvalidVersion, so none of these theorems
+   speaks about the real code on such strings. *)
 
 (* x is strictly below y for every one of the Python operators *)
 Definition strictly_below (x y : version) : Prop :=
@@ -190,8 +196,9 @@ Proof.
 Qed.
 Print Assumptions C01_dev_just_below_ops.
 
-(* 13. a .postM suffix sorts just above the thing it is attached to: v < v.postM, and whatever lies strictly between is a post-release of v
-       (lower number, or the .dev of a post-release) or v with a (greater) local label *)
+(* 13. a .postM suffix sorts just above the thing it is attached to: v < v.postM, and whatever lies strictly between has v's epoch, release and
+       pre class and is either some post-release of v (post w <> None: its number and dev part are not constrained further here - the order among
+       post-releases is clause 11b) or v without dev part and with a local label *)
 Theorem C01_post_just_above v m : post v = None -> dev v = None ->
   pep440_cmp v (with_post v m) = Lt /\
   forall w, pep440_cmp v w = Lt -> pep440_cmp w (with_post v m) = Lt ->
@@ -211,7 +218,10 @@ Qed.
 Print Assumptions C01_post_just_above_ops.
 
 (* 14. finally the local label: it decides only when everything before it ties; none < any; segment-wise (first differing segment decides);
-       numeric above alphanumeric; numeric by value; alphanumeric lexically (by code point); a proper prefix first *)
+       numeric above alphanumeric; numeric by value; alphanumeric lexically (by code point); a proper prefix first.
+       Conjuncts 1 (local label last), 4 (first differing segment), 7 (str_cmp is the lexicographic order lexc) and 8 (proper prefix first) need proofs.
+       Conjuncts 2 (none < any), 3 (Some/Some is seg_lex), 5 (alphanumeric below numeric) and 6 (numeric by value) are DEFINITIONAL: they hold by
+       `reflexivity`, i.e. they restate lines of the definitions of local_cmp / seg_cmp and are listed only so that the clause reads completely. *)
 Theorem C01_local_rules :
   (forall x y, same_release x y -> pre_class x = pre_class y -> post_class x = post_class y -> dev_class x = dev_class y ->
                pep440_cmp x y = local_cmp (local x) (local y)) /\
@@ -238,6 +248,39 @@ Proof.
   - unfold dev_class. now rewrite D.
 Qed.
 Print Assumptions C01_local_last_ops.
+(* 14b. the same with any outcome and without asking for literally equal components: whenever epoch, zero-padded release and the pre/post/dev
+        classes tie (e.g. "1+a" against "1.0+b"), all six operators are decided by the local labels alone *)
+Theorem C01_local_decides_ops a b x y : Version a = Some x -> Version b = Some y ->
+  same_release x y -> pre_class x = pre_class y -> post_class x = post_class y -> dev_class x = dev_class y ->
+  pep440_cmp x y = local_cmp (local x) (local y) /\ forall o, vop o x y = Some (of_cmp o (local_cmp (local x) (local y))).
+Proof.
+  intros Ha Hb S P Q D. pose proof (local_last x y S P Q D) as E. split; [exact E|]. intros o.
+  now rewrite (C01_ops_are_pep440 a b x y Ha Hb o), E.
+Qed.
+Print Assumptions C01_local_decides_ops.
+
+(* 11b. the two rungs clause 11 leaves open: with the same pre part the post NUMBER decides (1.0a1.post1 < 1.0a1.post2, with or without .dev), and
+        with the same pre and post parts the dev NUMBER decides (1.0a1.dev1 < 1.0a1.dev2, 1.0.post1.dev1 < 1.0.post1.dev2) *)
+Theorem C01_ladder_suffix_numbers x y :
+  same_release x y -> pre x = pre y ->
+  (forall l1 n l2 m, post x = Some (l1, n) -> post y = Some (l2, m) -> n < m -> pep440_cmp x y = Lt) /\
+  (forall l1 n l2 m, post x = post y -> dev x = Some (l1, n) -> dev y = Some (l2, m) -> n < m -> pep440_cmp x y = Lt).
+Proof.
+  intros S P. split.
+  - intros l1 n l2 m. exact (ladder_post_number_any x y l1 n l2 m S P).
+  - intros l1 n l2 m Q. exact (ladder_dev_number_any x y l1 n l2 m S P Q).
+Qed.
+Print Assumptions C01_ladder_suffix_numbers.
+Theorem C01_ladder_suffix_numbers_ops a b x y : Version a = Some x -> Version b = Some y -> same_release x y -> pre x = pre y ->
+  (forall l1 n l2 m, post x = Some (l1, n) -> post y = Some (l2, m) -> n < m -> strictly_below x y) /\
+  (forall l1 n l2 m, post x = post y -> dev x = Some (l1, n) -> dev y = Some (l2, m) -> n < m -> strictly_below x y).
+Proof.
+  intros Ha Hb S P. destruct (C01_ladder_suffix_numbers x y S P) as [H1 H2]. split.
+  - intros l1 n l2 m A B L. apply (C01_below_iff a b x y Ha Hb). exact (H1 l1 n l2 m A B L).
+  - intros l1 n l2 m Q A B L. apply (C01_below_iff a b x y Ha Hb). exact (H2 l1 n l2 m Q A B L).
+Qed.
+Print Assumptions C01_ladder_suffix_numbers_ops.
+
 
 (* 15. mixed transitivity on the Python operators: <= chains, and == is a congruence for every operator (so other spellings of the same
        version behave identically against any third version: "whatever the spelling") *)
@@ -294,7 +337,8 @@ Qed.
 Print Assumptions C01_run_sort_one_answer.
 
 (* 18. "numerically": a plain decimal string with any number of leading zeros is accepted and read as its value, so every operator compares two of
-        them as their values compare.  (This one fails if int() - VMeaning.num - or the scanner's treatment of digits were wrong.) *)
+        them as their values compare.  (This one fails if int() - VMeaning.num - or the scanner's treatment of digits were wrong.)
+        About the model, for every k, n: the model has no digit limit (finding D10); the real Version() rejects a digit run longer than 4300. *)
 Theorem C01_decimal_strings_compare_by_value k n j m : exists x y,
   Version (repeat 48 k ++ dec n) = Some x /\ Version (repeat 48 j ++ dec m) = Some y /\ forall o, vop o x y = Some (of_cmp o (n ?= m)).
 Proof.
@@ -333,4 +377,25 @@ Definition sort_check : bool :=
               | _ => false end
   | None => false end.
 Example C01_sort_nonvacuous : sort_check = true.
+Proof. vm_compute. reflexivity. Qed.
+
+(* the `_ops` sandwich theorems and the two-list sorting theorem on parsed strings: their hypotheses are instantiated by
+   v = "1.0a1" (dev_just_below: 1.0a1.dev5 < w = "1.0a1.dev7" < 1.0a1), v = "1.0" (post_just_above: 1.0 < w = "1.0+a" < 1.0.post3), the tie
+   "1+a" / "1.0+b" of C01_local_decides_ops, the rungs "1.0a1.post1" / "1a1.post2.dev0", and two spellings lists that are permutations up to == *)
+Definition ops_check : bool :=
+  let lt x y := match vop Lt_ x y with Some true => true | _ => false end in
+  match Version [49;46;48;97;49], Version [49;46;48;97;49;46;100;101;118;55], Version [49;46;48], Version [49;46;48;43;97],
+        Version [49;43;97], Version [49;46;48;43;98], Version [49;46;48;97;49;46;112;111;115;116;49], Version [49;97;49;46;112;111;115;116;50;46;100;101;118;48] with
+  | Some v, Some w, Some f, Some fw, Some la, Some lb, Some p1, Some p2 =>
+      lt (with_dev v 5) w && lt w v && lt f fw && lt fw (with_post f 3) &&
+      lt la lb && (match pep440_cmp la lb, local_cmp (local la) (local lb) with Lt, Lt => true | _, _ => false end) && lt p1 p2
+  | _, _, _, _, _, _, _, _ => false end.
+Example C01_ops_nonvacuous : ops_check = true.
+Proof. vm_compute. reflexivity. Qed.
+Definition sort2_check : bool :=
+  match all_some (map Version [[49;46;48]; [50]; [49;46;48;97;49]]), all_some (map Version [[50;46;48;46;48]; [49;97;49]; [49]]) with
+  | Some l1, Some l2 => forallb (fun p => match vop Eq_ (fst p) (snd p) with Some true => true | _ => false end) (combine (sort_v l1) (sort_v l2))
+                        && Nat.eqb (length (sort_v l1)) 3 && Nat.eqb (length (sort_v l2)) 3
+  | _, _ => false end.
+Example C01_sort2_nonvacuous : sort2_check = true.
 Proof. vm_compute. reflexivity. Qed.
